@@ -247,6 +247,13 @@ func runC19A(ch chooser.Chooser, st *Stats) *Outcome {
 	defer func() { sched.OrderFunc = nil }()
 
 	out := &Outcome{Nontrivial: cfg.Distinct >= cfg.Size}
+	if !distinct.VerifSourceInjectable {
+		// The simulator does not own the randomness of this build: the
+		// invariants are still checked, but the run is not a function of its
+		// choice list.
+		out.Detached = 1
+		st.Inc("fault:random_source_not_replaceable", 1)
+	}
 	h := newHasher()
 	type stepRec struct {
 		Op    string `json:"op"`
